@@ -29,6 +29,8 @@ func checkC01(c *Ctx, r *Report) {
 	includePrereq(c, r, "C01.e", checkC09)
 	includePrereq(c, r, "C01.e", checkC05)
 	c01StartSymbolFlow(c, r, "C01.c")
+	c01StackPrimitives(c, r, "C01.b", c.GetStaged())
+	c01StackPrimitivesTS(c, r, "C01.b", c.GetStaged())
 	// the states on the stack must be those this parse pushed (nested parses through PushContex/PopContex)
 	c15FreshStackAll(r, "C01.e←C15.c", c.GetStaged())
 	// a lexer code may select a terminal's column only: a code translated to a nonterminal's column reads a goto
